@@ -25,6 +25,12 @@ def build(spec):
     s2 = snap(t)
     if s2 != norm(spec):
         raise AssertionError(f"spec not in normal form: {spec} -> {s2}")
+    # -0.0 == 0.0: the constructor's min()/max() may pick the other zero than the object this spec was read from had;
+    # restore the recorded span bit for bit (the model is given exactly the spec)
+    if math.copysign(1.0, t.minTimestamp) != math.copysign(1.0, spec["lo"]):
+        t.minTimestamp = float(spec["lo"])
+    if math.copysign(1.0, t.maxTimestamp) != math.copysign(1.0, spec["hi"]):
+        t.maxTimestamp = float(spec["hi"])
     return t
 
 
@@ -162,7 +168,16 @@ def boundary_pool(spec, rnd, domain, hi=10.0):
     for x, y in zip(srt, srt[1:]):
         mids.append((x + y) / 2 if domain != "dec" else round((x + y) / 2, 3))
     fresh = gen_times(rnd, domain, 2, hi)
-    return srt + mids + fresh
+    near = []
+    if domain == "dec" and rnd.random() < 0.3:
+        # a few ulps beside a boundary: exact comparisons and tolerant ones (1e-14 relative, 1e-9 absolute) part ways here
+        for x in rnd.sample(srt, min(2, len(srt))):
+            y = x
+            for _ in range(rnd.randint(1, 3)):
+                y = math.nextafter(y, rnd.choice([-math.inf, math.inf]))
+            if y >= 0:
+                near.append(y)
+    return srt + mids + fresh + near
 
 
 # ---------------------------------------------------------------------------------------------
